@@ -154,6 +154,30 @@ def _rename(body_text, old, new):
             out.append(t.text)
     return ''.join(out)
 
+_BINOPS = set('+-*/%&|^')
+def _deref_ops(body_text, name):
+    """R4-deref: an element bound by SHARED reference (`let x = &A[i];`) that is used directly as an operand of an arithmetic / bit operator is written `(*x)`: for the integer
+    types the std `impl Op<T> for &T` forwards to the value, and the installed Verus has no operator support on references (front-end panic on `&i64 & i64`).  Anything else
+    (a type whose reference operators differ, a non-Copy element) no longer compiles -> undecided, never an alarm."""
+    toks = lex(body_text)
+    out = []
+    n = len(toks)
+    for k, t in enumerate(toks):
+        if t.kind == 'id' and t.text == name:
+            p = prev_code(toks, k)
+            q = next_code(toks, k)
+            pt = toks[p].text if p >= 0 else ''
+            qt = toks[q].text if q < n else ''
+            q2 = next_code(toks, q) if q < n else n
+            q2t = toks[q2].text if q2 < n else ''
+            logical = (qt in '&|' and q2t == qt and q < n and q2 < n and toks[q2].start == toks[q].end)
+            compound = (q2t == '=' and q < n and q2 < n and toks[q2].start == toks[q].end)
+            if pt not in ('.', '*', '&') and len(qt) == 1 and qt in _BINOPS and not logical and not compound and not (qt == '&' and False):
+                out.append('(*' + name + ')')
+                continue
+        out.append(t.text)
+    return ''.join(out)
+
 class Ctx:
     def __init__(self):
         self.k = 0
@@ -239,6 +263,12 @@ def _gen_loop(ctx, srcs, names, body_text, fired, kind='for-gen'):
             lines.append(f'let {new} = {amp}{s.expr}[{idx} * ({s.chunk})..{idx} * ({s.chunk}) + ({s.chunk})];')
             continue
         lines.append(f'let {new} = {amp}{s.expr}[{idx}];')
+    for new, s_ in binds:
+        if not s_.mutable and s_.chunk is None:
+            nb = _deref_ops(body_text, new)
+            if nb != body_text:
+                fired.add('R4-deref')
+                body_text = nb
     bt = _exit_rewrite(body_text, kind, K).strip()
     lines.append(bt if bt.endswith('}') or bt.endswith(';') else bt + ';')
     lines.append(f'i__{K} += 1;')
